@@ -9,6 +9,7 @@
               xberdec <ety> <hex> | xuperdec <std> <ety> <hex> | xoerdec <std> <ety> <hex>
                   -> OK <consumed> <val> | FAIL
               xtrunc <k> <ety> -> ety with the first k additions / extension alternatives
+              xtruncv <k> <ety> <val> -> the value with the first k additions only
               spec_frags <n> -> fragment sizes, comma separated
               spec_open <hex> -> open type bits of the contents, zero padded to octets (X.691 wording)
               xopen <hex> -> the same by the model of uper_open_type_put
@@ -175,6 +176,7 @@ let dispatch cmd args =
   | "xberdec", [t; h] -> Some (dec_s (ext_ber_decode (parse_ety t) (bytes_of_hex h)))
   | "xuperdec", [std; t; h] -> Some (dec_s (ext_uper_decode (std = "1") (parse_ety t) (bytes_of_hex h)))
   | "xoerdec", [std; t; h] -> Some (dec_s (ext_oer_decode (std = "1") (parse_ety t) (bytes_of_hex h)))
+  | "xtruncv", [k; t; v] -> let t = parse_ety t in Some (show_eval (truncate_val (nat_of_int (int_of_string k)) (eval_of t v)))
   | "xtrunc", [k; t] -> Some (show_ety (truncate_ty (nat_of_int (int_of_string k)) (parse_ety t)))
   | "spec_frags", [n] -> let n = int_of_string n in
       Some (String.concat "," (List.map string_of_cz (fragments (nat_of_int (n + 1)) (cz_of_int n))))
